@@ -441,7 +441,9 @@ def run(ctx):
             if why:
                 case = {"family": fam, "operation": op, "sizes": [n for n, _ in series], "counts": [c for _, c in series]}
                 n_bad = (why[0].get("sizes") or [why[0].get("size")] or [series[-1][0]])[-1] or series[-1][0]
-                if op in SIMPLIFY_OPS and shared:
+                if op in SIMPLIFY_OPS and shared and fam != "island_shared":
+                    # (a complete clique with one rate is found at the first subset: polynomial on the
+                    # unchanged tree, so a blow-up there is NOT the known finding)
                     what = F9_PREFIX + f"family {fam}, operation {op}"
                 else:
                     what = f"super-polynomial growth of executed lines: family {fam}, operation {op}"
